@@ -47,6 +47,7 @@ props! {
     "C15" => c15,
     "C16" => c16,
     "C17" => c17,
+    "C18" => c18,
 }
 
 pub fn replay(id: &str, path: &str) -> i32 {
